@@ -12,8 +12,19 @@ import (
 	"verif/harness/rtgen"
 )
 
+func baseOf(c rtgen.CaseT) rtgen.CaseT {
+	base := c
+	base.Eng = rtgen.EngineT{Version: c.Eng.Version}
+	return base
+}
+
 func emit(id string, c rtgen.CaseT, st *hx.Stats) string {
 	ask := rtgen.AskNames(c.Script)
+	return emitObs(id, c, ask, rtgen.Observe(baseOf(c), ask), rtgen.Observe(c, ask), st)
+}
+
+// emitObs writes the case line for a pair of observations already made (plain engine, configured engine)
+func emitObs(id string, c rtgen.CaseT, ask []string, oa, ob rtgen.ObsT, st *hx.Stats) string {
 	l := hx.NewLine(id)
 	l.Bool(c.Eng.Compiled).Nat(int(c.Eng.BloomSize)).Nat(c.Eng.BloomK).Bool(c.Eng.Version != "")
 	if c.Warm && c.WarmupAt <= len(c.Script) { // explicit Warmup() before registration WarmupAt
@@ -23,10 +34,6 @@ func emit(id string, c rtgen.CaseT, st *hx.Stats) string {
 	}
 	rtgen.InputTokens(l, c, ask)
 	in := l.String()
-	base := c
-	base.Eng = rtgen.EngineT{Version: c.Eng.Version}
-	oa := rtgen.Observe(base, ask)
-	ob := rtgen.Observe(c, ask)
 	l.Sep()
 	rtgen.ObsTokens(l, oa, ask)
 	rtgen.ObsTokens(l, ob, ask)
@@ -61,6 +68,24 @@ func emit(id string, c rtgen.CaseT, st *hx.Stats) string {
 		} else {
 			st.Count("static_routes_lt10")
 		}
+		if c.Req.Cancelled {
+			st.Count("request_context_cancelled")
+		}
+		if len(c.Prev) > 0 {
+			st.Count("request_not_first_on_router")
+		}
+		for _, q := range c.Prev {
+			if q.PanicIn {
+				st.Count("request_after_a_failing_handler")
+				break
+			}
+		}
+		if len(c.Burst) > 0 {
+			st.Count("request_in_concurrent_burst")
+		}
+		if c.Overlap != nil {
+			st.Count("request_overlapping_" + c.Overlap.Kind)
+		}
 		if c.Warm {
 			st.Count("script_warmup_before_registrations")
 			if c.Eng.Version != "" {
@@ -92,7 +117,9 @@ func emit(id string, c rtgen.CaseT, st *hx.Stats) string {
 	return l.String() + hx.Comment(c)
 }
 
-func reg(m, p string, cons ...rtgen.ConsT) rtgen.RegT { return rtgen.RegT{Method: m, Path: p, Cons: cons} }
+func reg(m, p string, cons ...rtgen.ConsT) rtgen.RegT {
+	return rtgen.RegT{Method: m, Path: p, Cons: cons}
+}
 
 func fixed() []rtgen.CaseT {
 	G := "GET"
@@ -124,6 +151,10 @@ func fixed() []rtgen.CaseT {
 		{Script: []rtgen.RegT{reg(G, "/a/b"), reg(G, "/a/:x", rtgen.ConsT{Name: "x", Kind: "where", Arg: "[a-z]+"})}, Req: rtgen.ReqT{Method: G, Path: "/a/b"}, Eng: rtgen.EngineT{Compiled: true, Version: "v1"}, Warm: true, WarmupAt: 0},
 		{Script: []rtgen.RegT{reg(G, "/a/b"), reg(G, "/a/b"), reg(G, "/a/:x", rtgen.ConsT{Name: "x", Kind: "int"}), reg(G, "/a/*")}, Req: rtgen.ReqT{Method: G, Path: "/a/7"}, Eng: rtgen.EngineT{Compiled: true, Version: "v1"}, Warm: true, WarmupAt: 1},
 		{Script: []rtgen.RegT{reg(G, "/a/b"), reg(G, "/a/b"), reg(G, "/a/:x", rtgen.ConsT{Name: "x", Kind: "int"})}, Req: rtgen.ReqT{Method: G, Path: "/a/b"}, Eng: rtgen.EngineT{Compiled: true, Version: "v1"}, Warm: true, WarmupAt: 1},
+		// overlapping templates in one bucket of the first-segment index (>= 10 parameter routes): the answer
+		// to the second request must not depend on which template served the first
+		{Script: append(append([]rtgen.RegT(nil), many...), reg(G, "/users/:id/profile"), reg(G, "/users/:id/:action")), Req: rtgen.ReqT{Method: G, Path: "/users/7/profile"}, Eng: on, Prev: []rtgen.ReqT{{Method: G, Path: "/users/7/edit"}}},
+		{Script: append(append([]rtgen.RegT(nil), many...), reg(G, "/users/:id/:action"), reg(G, "/users/:id/profile")), Req: rtgen.ReqT{Method: G, Path: "/users/7/profile"}, Eng: on, Prev: []rtgen.ReqT{{Method: G, Path: "/users/7/profile"}, {Method: G, Path: "/users/8/edit"}}},
 		mk([]rtgen.RegT{reg(G, "/a/:x ")}, G, "/a/1", on), mk([]rtgen.RegT{reg(G, "/ ")}, G, "/", on),
 		mk([]rtgen.RegT{reg(G, "/u/:id", rtgen.ConsT{Name: "id", Kind: "int"}, rtgen.ConsT{Name: "id", Kind: "where", Arg: "[1-9].*"})}, G, "/u/07", on),
 		mk([]rtgen.RegT{reg(G, "/u/:id", rtgen.ConsT{Name: "uid", Kind: "int"})}, G, "/u/7", on),
@@ -203,14 +234,62 @@ func main() {
 					}
 				}
 			}
+			ask := rtgen.AskNames(script)
 			for j := 0; j < perScript && i < a.N; j++ {
 				c := rtgen.CaseT{NoRoute: nr, Script: script, Req: rtgen.GenReqWide(r, script), Eng: eng, Warm: warm, WarmupAt: warmAt}
-				fmt.Fprintln(w, emit(fmt.Sprintf("c11-%d-%d", a.Seed, i), c, st))
+				if r.Chance(1, 4) { // a family of overlapping templates, several requests on one router
+					fam := rtgen.GenFamily(r, script)
+					c.Req = fam[len(fam)-1]
+					c.Prev = fam[:len(fam)-1]
+				} else if r.Chance(1, 4) { // not the first request on its router; earlier ones may fail in the handler or arrive cancelled
+					for k := r.Range(1, 3); k > 0; k-- {
+						q := rtgen.GenReqWide(r, script)
+						q.PanicIn = r.Chance(1, 3)
+						q.Cancelled = r.Chance(1, 6)
+						c.Prev = append(c.Prev, q)
+					}
+				}
+				if r.Chance(1, 8) { // another request in flight, held (and possibly failing) at a chosen point
+					c.Overlap = &rtgen.OverlapT{Kind: hx.Pick(r, []string{"handler", "end-slow", "end-panic", "end-panic"}),
+						Role: hx.Pick(r, []string{"A", "B", "B"}), Other: rtgen.GenReqWide(r, script)}
+				}
+				oa, ob := rtgen.Observe(baseOf(c), ask), rtgen.Observe(c, ask)
+				fmt.Fprintln(w, emitObs(fmt.Sprintf("c11-%d-%d", a.Seed, i), c, ask, oa, ob, st))
 				i++
+				if c.Overlap == nil && oa.Ran < 0 && ob.Ran < 0 && !oa.Panic && !ob.Panic && r.Chance(1, 4) && i < a.N {
+					// nobody's route: the same request once more, its context already cancelled
+					c.Prev = append(c.Prev[:len(c.Prev):len(c.Prev)], c.Req)
+					c.Req.Cancelled = true
+					fmt.Fprintln(w, emit(fmt.Sprintf("c11-%d-%dx", a.Seed, i), c, st))
+					i++
+				}
+			}
+			if r.Chance(1, 12) && i < a.N {
+				// concurrent burst on both engines: every pair of different answers to one request is a case
+				var reqs []rtgen.ReqT
+				for k := r.Range(6, 12); k > 0; k-- {
+					reqs = append(reqs, rtgen.GenReqWide(r, script))
+				}
+				c := rtgen.CaseT{NoRoute: nr, Script: script, Eng: eng, Warm: warm, WarmupAt: warmAt}
+				A := rtgen.NewSession(baseOf(c), ask).ServeBurst(reqs, rtgen.BurstWorkers, rtgen.BurstRounds)
+				B := rtgen.NewSession(c, ask).ServeBurst(reqs, rtgen.BurstWorkers, rtgen.BurstRounds)
+				for k := range reqs {
+					c.Req = reqs[k]
+					c.Burst = append(append([]rtgen.ReqT(nil), reqs[:k]...), reqs[k+1:]...)
+					n := 0
+					for _, oa := range A[k] {
+						for _, ob := range B[k] {
+							fmt.Fprintln(w, emitObs(fmt.Sprintf("c11-%d-%db%d", a.Seed, i, n), c, ask, oa, ob, st))
+							n++
+							i++
+						}
+					}
+				}
 			}
 		}
 		st.Emit(w)
 	case "replay":
+		rtgen.BurstTries = 5
 		for _, line := range hx.StdinLines() {
 			var c rtgen.CaseT
 			id, err := hx.CaseFromComment(line, &c)
